@@ -113,7 +113,8 @@ func (m *Manifest) Save() error {
 		return fmt.Errorf("failed to marshal manifest: %w", err)
 	}
 
-	if err := os.WriteFile(tempPath, data, 0644); err != nil {
+	if err := writeFileSync(tempPath, data); err != nil {
+		os.Remove(tempPath)
 		return fmt.Errorf("failed to write manifest: %w", err)
 	}
 
